@@ -63,6 +63,12 @@ pub fn op_fresh(a: &[&str]) -> String {
                 let ct = p.encrypt(x).to_bytes();
                 vec![("commitment".into(), ct[..32].to_vec()), ("handle".into(), ct[32..].to_vec())]
             }
+            "encu64" => {
+                let (Some(p), Some(x)) = (args.first().and_then(|s| pubkey(s)), args.get(1).and_then(|s| s.parse::<u64>().ok())) else { return "bad-op".into() };
+                let ct = p.encrypt_u64(x).to_bytes();
+                vec![("commitment".into(), ct[..32].to_vec()), ("handle".into(), ct[32..].to_vec())]
+            }
+            "seckeygen" => vec![("secret".into(), solana_zk_sdk::encryption::elgamal::ElGamalSecretKey::new_rand().as_bytes().to_vec())],
             "genc" => {
                 let Some(x) = args.first().and_then(|s| s.parse::<u64>().ok()) else { return "bad-op".into() };
                 let ks: Option<Vec<_>> = args[1..].iter().map(|k| pubkey(k)).collect();
